@@ -13,10 +13,10 @@ Lemma utf8_bits2 : forall p0 b1 : N,
   (128 <= c < 2048)%N /\ (192 + c / 64 = p0)%N /\ (128 + c mod 64 = b1)%N.
 Proof.
   intros p0 b1 H0 H1 c Hc.
-  assert (E0 : (p0 mod 32 = p0 - 192)%N) by (timeout 30 lia).
-  assert (E1 : (b1 mod 64 = b1 - 128)%N) by (timeout 30 lia).
+  assert (E0 : (p0 mod 32 = p0 - 192)%N) by (timeout 600 lia).
+  assert (E1 : (b1 mod 64 = b1 - 128)%N) by (timeout 600 lia).
   rewrite E0, E1 in Hc. clear E0 E1.
-  repeat split; timeout 30 lia.
+  repeat split; timeout 600 lia.
 Qed.
 
 Lemma utf8_bits3 : forall p0 b1 b2 : N,
@@ -27,12 +27,12 @@ Lemma utf8_bits3 : forall p0 b1 b2 : N,
   (224 + c / 4096 = p0)%N /\ (128 + (c / 64) mod 64 = b1)%N /\ (128 + c mod 64 = b2)%N.
 Proof.
   intros p0 b1 b2 H0 H1 H2 Hlo Hhi c Hc.
-  assert (E0 : (p0 mod 16 = p0 - 224)%N) by (timeout 30 lia).
-  assert (E1 : (b1 mod 64 = b1 - 128)%N) by (timeout 30 lia).
-  assert (E2 : (b2 mod 64 = b2 - 128)%N) by (timeout 30 lia).
+  assert (E0 : (p0 mod 16 = p0 - 224)%N) by (timeout 600 lia).
+  assert (E1 : (b1 mod 64 = b1 - 128)%N) by (timeout 600 lia).
+  assert (E2 : (b2 mod 64 = b2 - 128)%N) by (timeout 600 lia).
   rewrite E0, E1, E2 in Hc. clear E0 E1 E2.
-  assert (D1 : (c / 64 = (p0 - 224) * 64 + (b1 - 128))%N) by (timeout 30 lia).
-  repeat split; timeout 30 lia.
+  assert (D1 : (c / 64 = (p0 - 224) * 64 + (b1 - 128))%N) by (timeout 600 lia).
+  repeat split; timeout 600 lia.
 Qed.
 
 Lemma utf8_bits4 : forall p0 b1 b2 b3 : N,
@@ -45,14 +45,14 @@ Lemma utf8_bits4 : forall p0 b1 b2 b3 : N,
   (128 + (c / 64) mod 64 = b2)%N /\ (128 + c mod 64 = b3)%N.
 Proof.
   intros p0 b1 b2 b3 H0 H1 H2 H3 Hlo Hhi c Hc.
-  assert (E0 : (p0 mod 8 = p0 - 240)%N) by (timeout 30 lia).
-  assert (E1 : (b1 mod 64 = b1 - 128)%N) by (timeout 30 lia).
-  assert (E2 : (b2 mod 64 = b2 - 128)%N) by (timeout 30 lia).
-  assert (E3 : (b3 mod 64 = b3 - 128)%N) by (timeout 30 lia).
+  assert (E0 : (p0 mod 8 = p0 - 240)%N) by (timeout 600 lia).
+  assert (E1 : (b1 mod 64 = b1 - 128)%N) by (timeout 600 lia).
+  assert (E2 : (b2 mod 64 = b2 - 128)%N) by (timeout 600 lia).
+  assert (E3 : (b3 mod 64 = b3 - 128)%N) by (timeout 600 lia).
   rewrite E0, E1, E2, E3 in Hc. clear E0 E1 E2 E3.
-  assert (D1 : (c / 64 = (p0 - 240) * 4096 + (b1 - 128) * 64 + (b2 - 128))%N) by (timeout 30 lia).
-  assert (D2 : (c / 4096 = (p0 - 240) * 64 + (b1 - 128))%N) by (timeout 30 lia).
-  repeat split; timeout 30 lia.
+  assert (D1 : (c / 64 = (p0 - 240) * 4096 + (b1 - 128) * 64 + (b2 - 128))%N) by (timeout 600 lia).
+  assert (D2 : (c / 4096 = (p0 - 240) * 64 + (b1 - 128))%N) by (timeout 600 lia).
+  repeat split; timeout 600 lia.
 Qed.
 
 (** ** the encoder on a value with known bytes *)
@@ -130,7 +130,7 @@ Proof.
     apply in_range_spec in R1.
     injection Hd as Hr Hs. subst size. unfold zb in *.
     remember ((p0 mod 32) * 64 + b1 mod 64)%N as c eqn:Ec.
-    assert (Hrc : r = Z.of_N c) by (subst r c; timeout 30 lia).
+    assert (Hrc : r = Z.of_N c) by (subst r c; timeout 600 lia).
     destruct (utf8_bits2 p0 b1 ltac:(lia) ltac:(lia) c Ec) as (Hc & E0 & E1).
     exists c.
     rewrite (utf8_encode_2 c p0 b1 Hc E0 E1). cbn [length skipn app].
@@ -147,7 +147,7 @@ Proof.
     destruct (Z.eqb_spec (Z.of_N p0) 224) as [A1|A1];
       destruct (Z.eqb_spec (Z.of_N p0) 237) as [A2|A2]; try (exfalso; lia).
     all: remember ((p0 mod 16) * 4096 + (b1 mod 64) * 64 + b2 mod 64)%N as c eqn:Ec.
-    all: assert (Hrc : r = Z.of_N c) by (subst r c; timeout 30 lia).
+    all: assert (Hrc : r = Z.of_N c) by (subst r c; timeout 600 lia).
     all: destruct (utf8_bits3 p0 b1 b2 ltac:(lia) ltac:(lia) ltac:(lia) ltac:(lia) ltac:(lia) c Ec)
            as (Hc & Hsur & E0 & E1 & E2).
     all: exists c.
@@ -168,7 +168,7 @@ Proof.
       destruct (Z.eqb_spec (Z.of_N p0) 244) as [A2|A2]; try (exfalso; lia).
     all: remember ((p0 mod 8) * 262144 + (b1 mod 64) * 4096 + (b2 mod 64) * 64 + b3 mod 64)%N
            as c eqn:Ec.
-    all: assert (Hrc : r = Z.of_N c) by (subst r c; timeout 30 lia).
+    all: assert (Hrc : r = Z.of_N c) by (subst r c; timeout 600 lia).
     all: destruct (utf8_bits4 p0 b1 b2 b3 ltac:(lia) ltac:(lia) ltac:(lia) ltac:(lia)
                      ltac:(lia) ltac:(lia) c Ec) as (Hc & E0 & E1 & E2 & E3).
     all: exists c.
